@@ -146,7 +146,9 @@ def depends(
             # (a Parameter named twice is still one dependency)
             group[0].owner.param.watch(cb, list(dict.fromkeys(dep.name for dep in group)))
 
-    _dinfo = getattr(func, '_dinfo', {})
+    # (a copy: decorating an already decorated method again, e.g. an inherited
+    # one in a subclass, must not change what the original declares)
+    _dinfo = dict(getattr(func, '_dinfo', {}))
     _dinfo.update({'dependencies': dependencies,
                    'kw': kw, 'watch': watch, 'on_init': on_init})
 
